@@ -24,10 +24,9 @@
    and is popped).
 
    `step_pqc` is step_pq of Dijkstra_Model.v with top() = the first cell.  It additionally CHECKS that this cell
-   has a minimal key (`is_min`) and returns DOOB site_pick 1 otherwise: the proof that libstdc++'s heap keeps
-   its order is not part of this slice, so the theorem about this model (Dijkstra_Proof_PQC.v) is the partial
-   one: whenever a row is returned (no DOOB, no OutOfFuel) it is the shortest-path row; that the check never
-   fires is observed on every run (the extracted model is executed on every generated graph).
+   has a minimal key (`is_min`) and returns DOOB site_pick 1 otherwise (a distinguished result, as for every
+   out-of-contract situation).  Dijkstra_Proof_PQC_Heap.v proves that push_heap / pop_heap keep the heap order,
+   so the check never fires and full_matrix_pqc = DOk (sp_matrix ..) for every well-formed graph.
    The instrumented copy lists the distance-callback calls (u, v) in order, as Dijkstra_FibC_Model.v does for
    the Fibonacci configuration: with ties among keys the order in which vertices leave the queue — hence the
    call sequence — is the binary heap's own.  No proofs in this file. *)
